@@ -648,10 +648,10 @@ def run_zero_padding(ctx, res, n):
 def run(ctx):
     res = {"evaluations": 0, "nontrivial": set(), "violations": [], "disagreements": [], "distribution": {},
            "streams": 5, "notes": []}
-    run_chains(ctx, res, ctx.n(120, 4000))
-    run_scc(ctx, res, ctx.n(150, 4000))
+    run_chains(ctx, res, ctx.n(120, 1200))
+    run_scc(ctx, res, ctx.n(150, 1500))
     run_nested(ctx, res, ctx.n(12, 300))
-    run_zero_padding(ctx, res, ctx.n(14, 1200))
+    run_zero_padding(ctx, res, ctx.n(14, 300))
     res["rule"] = ("A/B: caption sets of 1-4 captions with flat balanced spans (9 style dictionaries: i, b, u, combinations, "
                    "colour only) through 6 conversion chains + WebVTT; non-trivial = a caption with at least one style node "
                    "(distinct (chain, node list)). C: generated SCC pop-on streams with italic / plain mid-row codes. "
